@@ -48,8 +48,11 @@ def run(chk, scratch):
             for hs in (0, 5):
                 configs.append({"threads": t, "hs": hs, "flags": ["--high_memory"], "delay": 0.0})
                 configs.append({"threads": t, "hs": hs, "flags": ["--keep_tmp"], "delay": 0.0})
+        configs.append({"threads": 1, "hs": 0, "flags": [], "delay": 0.0, "again": True})
+        configs.append({"threads": 3, "hs": 2, "flags": ["--high_memory"], "delay": 0.0, "again": True})
     else:
         configs = [{"threads": 1, "hs": 0, "flags": [], "delay": 0.0},         # repetition
+                   {"threads": 2, "hs": 0, "flags": [], "delay": 0.0, "again": True},         # repetition into the folder of the first run
                    {"threads": 1, "hs": 1, "flags": [], "delay": 0.0},
                    {"threads": 1, "hs": 7, "flags": ["--high_memory"], "delay": 0.0},
                    {"threads": 2, "hs": 2, "flags": [], "delay": 0.3, "dseed": 1},
@@ -92,6 +95,9 @@ def run(chk, scratch):
             i, c = ic
             out = os.path.join(d, "run%d" % i)
             ev = os.path.join(d, "ev%d" % i)
+            if c.get("again"):
+                # repetition INTO THE SAME output folder (the command line is simply run again, --force): the second run is judged
+                pipeline.run(d, out, threads=c["threads"], extra=base_extra + c["flags"], hashseed=str(c["hs"]), home=os.path.join(d, "home%d" % i))
             rr = pipeline.run(d, out, threads=c["threads"], extra=base_extra + c["flags"], hashseed=str(c["hs"]),
                               home=os.path.join(d, "home%d" % i), mon=["schedule"],
                               cfg={"sched_seed": c.get("dseed", 0), "sched_max_delay": c["delay"]}, events=ev)
@@ -118,6 +124,8 @@ def run(chk, scratch):
             if c["hs"] != 0:
                 knob.append("hashseed")
             knob += [f.strip("-") for f in c["flags"]]
+            if c.get("again"):
+                knob.append("same-folder-again")
             for rel, why in diffs:
                 suffix = rel.split(".", 1)[1] if "." in rel else rel
                 chk.violation("output-differs:%s:%s" % ("+".join(knob) or "repetition", suffix),
